@@ -218,6 +218,15 @@ def run(ctx):
                     d = cb.unique_def(l) if l is not None else None
                     if d and d[2] == "call" and callee_key(d[3]["callee"]).endswith("cell::Cell::get"):
                         g = True
+                    if d and d[2] == "call" and d[3]["callee"].get("method") in ("with", "try_with") and "LocalKey" in callee_key(d[3]["callee"]) \
+                            and any(a.get("k") == "const" and strip_generics(a.get("fndef") or "").endswith("cell::Cell::get") for a in d[3]["args"]):
+                        # `TLS_INIT_GUARD.with(Cell::get)`: the same read, spelled with the accessor as a function item
+                        key_sl = Slice(cb).run(d[3]["args"][0])
+                        flags = [p_ for p_, s_ in prog.statics.items() if "LocalKey<std::cell::Cell<bool>>" in s_["ty"]["s"]]
+                        g = any((c.get("name") or "").endswith("allocator::TLS_INIT_GUARD") for c in key_sl["consts"]) or \
+                            any(x.endswith("allocator::TLS_INIT_GUARD") for x in key_sl["statics"]) or \
+                            (len(flags) == 1 and flags[0].endswith("allocator::TLS_INIT_GUARD") and
+                             any("LocalKey<std::cell::Cell<bool>>" in (c.get("ty") or "") for c in key_sl["consts"]))
                 ok = ok and g and len(sw) == 1
                 det += f"; skipping is controlled by one Cell::get test={g and len(sw)==1}"
         ctx.ob("R2.track-reaches-register", "track_allocation", ok, tb.loc(), det)
